@@ -42,6 +42,23 @@ Cooperate(a, b) ==
    /\ \/ (a.rec \in Trailer /\ b.rec \in Trailer)
       \/ (a.ent = b.ent /\ a.rec \notin Trailer /\ b.rec \notin Trailer)
       \/ (a.rec = "eocd" /\ a.f \in {"n_total", "cd_size", "cd_offset"} /\ b.rec = "central" /\ b.f \in {"nlen", "xlen", "klen", "off"})
+(***************************************************************************)
+(* Injections: records a liar ADDS to an otherwise honest entry (a lie     *)
+(* about a field can only reach records the seed already has).             *)
+(*  - a WinZip AES record (0x9901) in the local header, the central header *)
+(*    or both, naming any inner method, with and without the encryption    *)
+(*    flag, under a supported or unsupported outer method: the readers     *)
+(*    take the effective method from the record, so every place that       *)
+(*    decides "can I decode this" must look at the SAME method;            *)
+(*  - a ZIP64 record with 0..4 values in the local / central header of an  *)
+(*    entry whose 32-bit fields hold sentinels in any subset (a record     *)
+(*    shorter or longer than the sentinels call for).                      *)
+(***************************************************************************)
+Wheres == {"local", "central", "both"}
+AesInjections == [kind : {"aes"}, outer : {0, 8, 99}, inner : {0, 8, 14, 99}, enc : BOOLEAN, where : Wheres,
+                  ver : {1, 2}, strength : {0, 1, 3, 4}]
+Z64Injections == [kind : {"z64"}, where : Wheres, nvals : 0..4, sus : BOOLEAN, scs : BOOLEAN, soff : BOOLEAN]
+Injections == AesInjections \cup Z64Injections
 \* the verdict on any call of the reader surface
 Acceptable(class) == class \in {"ok", "err", "io", "invalid", "unsupported", "notfound", "password_required", "invalid_password", "end"}
 =============================================================================
